@@ -265,8 +265,8 @@ class Case:
                     with open(full, "rb") as f:
                         data = f.read()
                     perm = stat.S_IMODE(st.st_mode)
-                    out[pth] = {"t": "f", "c": RCONTENT.get(data, "?" + data[:16].hex()),
-                                "x": bool(perm & 0o100)}
+                    cls = "M" if data.startswith(b"gitdir: ") else RCONTENT.get(data, "?" + data[:16].hex())
+                    out[pth] = {"t": "f", "c": cls, "x": bool(perm & 0o100)}
                     if perm not in (0o644, 0o755):
                         out[pth]["perm"] = oct(perm)
 
@@ -352,6 +352,8 @@ class Case:
                 out[comps] = {"t": "l", "to": self.link_comps(data or b"?")}
             elif e.mode == 0o160000:
                 out[comps] = {"t": "g"}
+            elif e.mode == 0o040000:
+                out[comps] = {"t": "gd"}
             else:
                 out[comps] = {"t": "f", "c": RCONTENT.get(data, "?"), "x": bool(e.mode & 0o100)}
         return out
